@@ -1,9 +1,9 @@
 package rules
 
 import (
-	"go/types"
-	"go/token"
 	"fmt"
+	"go/token"
+	"go/types"
 	"golang.org/x/tools/go/ssa"
 	"os"
 	"sort"
@@ -302,6 +302,11 @@ func checkC04(p *core.Program, r *core.Report) {
 	r.Floor(R3, 4)
 	r.Floor(R4, 4)
 
+	// R6: the close routine itself closes the transport and reports the end on each of its paths (shared with C11.R1/R2)
+	const R6 = "C04.R6 close-routine-closes"
+	r.Rule(R6, "every path through the close-once body closes the transport and reports the connection end exactly once - also when the write of the close announce fails (rule shared with C11.R1/R2)")
+	checkShipCloseOnce(p, r, R6, R6)
+
 	// R5: the state setter reports every change upward, with this connection's SKI and the new state
 	const R5 = "C04.R5 every-change-reported"
 	r.Rule(R5, "in the function that stores the handshake state from its parameter, every path on which old != new invokes HandleShipHandshakeStateUpdate(remoteSKI, {State: new})")
@@ -512,6 +517,13 @@ func checkC01(p *core.Program, r *core.Report) {
 	if n := checkSKINormalised(p, r, R5, map[string]bool{"UnregisterRemoteSKI": true, "CancelPairingWithSKI": true}); n < 2 {
 		r.Fail(R5, "entries", "", "CancelPairingWithSKI / UnregisterRemoteSKI not found")
 	}
+	// ... and leaves no trust or queued state behind (rule shared with C10.R2/R3)
+	checkRevocation(p, r, R5, R5)
+	// R7: the SKI the trust predicates are asked about is the one the peer proved (rule shared with C02.R1)
+	const R7 = "C01.R7 trusted-identity-is-proven"
+	r.Rule(R7, "the inbound connection is created under the SKI extracted from the first certificate of this request's TLS state - the only one whose key the peer proved possession of (shared with C02.R1)")
+	checkInboundIdentity(p, r, R7, "")
+	r.Floor(R7, 2)
 }
 
 // fsmTerminalRules: (R3) timer stopped when a path enters a terminal or the
